@@ -22,6 +22,7 @@
      band_solve_phases                       band_solve = shift_rows ; main loop ; forward phase ; back substitution
      band_solve_backward_error               the three row-wise statements for the factors band_solve computed itself
      band_solve_single_backward_error        multiplied out: (B + dB) x = b, |dB| <= (3 gam N + gam N^2)|L||U| (Higham Thm 9.4)
+     band_solve_noswap_single_backward_error the same when no rows were exchanged: |dB| <= gam(3(m1+m2+1))|L||U|, bandwidth only
    Hypothesis throughout: the computed pivots au[k][0] are nonzero (division by zero does not panic in the rounded reals).
    NOT covered: a bound of |L||U| by |B| (growth factor); binary64 itself (the standard model is assumed, discharged for
    53-bit round-to-nearest with unbounded exponent in Proofs/RoundFlx.v); band_det.
@@ -695,5 +696,69 @@ Proof.
   split; [exact ux_range|]. split; [exact xsub_ok|]. split; [exact xmul_ok|]. split; [exact xdiv_ok|].
   split; [exact exs_wf|]. split; [reflexivity|]. split; [cbn; lia|]. split; [exact exs_solve|].
   split; [exact exs_decompose|]. split; [exact exs_pivots|]. split; [cbn; lia|]. split; [exact exs_hist_le3|exact exs_size3].
+Qed.
+
+(* the classical statement when the pivot search never left the diagonal (index[k] = k+1): (B + dB) x = b with |dB| <= gam(3 (m1+m2+1)) |L||U| -- the constant depends on the bandwidth only, not on n *)
+Theorem band_solve_noswap_single_backward_error : forall (u : R), (0 <= u < 1)%R ->
+  forall (fadd fsub fmul fdiv : R -> R -> R),
+  (forall x y : R, exists d : R, (Rabs d <= u)%R /\ fsub x y = ((x - y) * (1 + d))%R) ->
+  (forall x y : R, exists d : R, (Rabs d <= u)%R /\ fmul x y = (x * y * (1 + d))%R) ->
+  (forall x y : R, y <> 0%R -> exists d : R, (Rabs d <= u)%R /\ fdiv x y = (x / y * (1 + d))%R) ->
+  forall (B : banded (ARm fadd fsub fmul fdiv)) (b x : list R),
+  wfB B -> length b = bn B -> bm1 B <= bn B -> band_solve B b = Ok x ->
+  (INR (3 * (bm1 B + bm2 B + 1)) * u < 1)%R ->
+  exists (au al : matrix (ARm fadd fsub fmul fdiv)) (index : list nat),
+    (exists d : R, decompose_gen (A := ARm fadd fsub fmul fdiv) false B (Model.Banded.compact B)
+                     (mat_new (A := ARm fadd fsub fmul fdiv) (bn B) (bm1 B) 0%R) (repeat 0 (bn B))
+                   = Ok (au, al, index, d)) /\
+    ((forall k, k < bn B -> mat_at (A := ARm fadd fsub fmul fdiv) au (bm1 B + bm2 B + 1) k 0 <> 0%R) ->
+     (forall k, k < bn B -> nth k index 0 = k + 1) ->
+     exists dB : nat -> nat -> R,
+       (forall r c, r < bn B -> c < bn B ->
+          (Rabs (dB r c) <= gam u (3 * (bm1 B + bm2 B + 1))
+                            * Rsum (bn B) (fun k => Rabs (Ld (fhist (A := ARm fadd fsub fmul fdiv) (bn B) (bm1 B) al index (bn B) r) r k)
+                                                    * Rabs (Uc fadd fsub fmul fdiv au (bm1 B + bm2 B + 1) k c)))%R) /\
+       forall r, r < bn B ->
+         Rsum (bn B) (fun c => ((dense_entry B r c + dB r c) * nth c x 0)%R) = nth r b 0%R).
+Proof. intros u Hu fadd fsub fmul fdiv Hs Hm Hd B b x. exact (band_solve_noswap_single_backward_error_lemma u Hu fadd fsub fmul fdiv Hs Hm Hd B b x). Qed.
+Check band_solve_noswap_single_backward_error : forall (u : R), (0 <= u < 1)%R ->
+  forall (fadd fsub fmul fdiv : R -> R -> R),
+  (forall x y : R, exists d : R, (Rabs d <= u)%R /\ fsub x y = ((x - y) * (1 + d))%R) ->
+  (forall x y : R, exists d : R, (Rabs d <= u)%R /\ fmul x y = (x * y * (1 + d))%R) ->
+  (forall x y : R, y <> 0%R -> exists d : R, (Rabs d <= u)%R /\ fdiv x y = (x / y * (1 + d))%R) ->
+  forall (B : banded (ARm fadd fsub fmul fdiv)) (b x : list R),
+  wfB B -> length b = bn B -> bm1 B <= bn B -> band_solve B b = Ok x ->
+  (INR (3 * (bm1 B + bm2 B + 1)) * u < 1)%R ->
+  exists (au al : matrix (ARm fadd fsub fmul fdiv)) (index : list nat),
+    (exists d : R, decompose_gen (A := ARm fadd fsub fmul fdiv) false B (Model.Banded.compact B)
+                     (mat_new (A := ARm fadd fsub fmul fdiv) (bn B) (bm1 B) 0%R) (repeat 0 (bn B))
+                   = Ok (au, al, index, d)) /\
+    ((forall k, k < bn B -> mat_at (A := ARm fadd fsub fmul fdiv) au (bm1 B + bm2 B + 1) k 0 <> 0%R) ->
+     (forall k, k < bn B -> nth k index 0 = k + 1) ->
+     exists dB : nat -> nat -> R,
+       (forall r c, r < bn B -> c < bn B ->
+          (Rabs (dB r c) <= gam u (3 * (bm1 B + bm2 B + 1))
+                            * Rsum (bn B) (fun k => Rabs (Ld (fhist (A := ARm fadd fsub fmul fdiv) (bn B) (bm1 B) al index (bn B) r) r k)
+                                                    * Rabs (Uc fadd fsub fmul fdiv au (bm1 B + bm2 B + 1) k c)))%R) /\
+       forall r, r < bn B ->
+         Rsum (bn B) (fun c => ((dense_entry B r c + dB r c) * nth c x 0)%R) = nth r b 0%R).
+Print Assumptions band_solve_noswap_single_backward_error.
+(* [[2,1],[1,3]] x = [1,2]: the pivot search keeps the diagonal, the exchange record is [1; 2] *)
+Example band_solve_noswap_single_backward_error_nonvacuous :
+  (0 <= ux < 1)%R /\
+  (forall x y : R, exists d : R, (Rabs d <= ux)%R /\ xsub x y = ((x - y) * (1 + d))%R) /\
+  (forall x y : R, exists d : R, (Rabs d <= ux)%R /\ xmul x y = (x * y * (1 + d))%R) /\
+  (forall x y : R, y <> 0%R -> exists d : R, (Rabs d <= ux)%R /\ xdiv x y = (x / y * (1 + d))%R) /\
+  wfB exn_B /\ length exs_b = bn exn_B /\ bm1 exn_B <= bn exn_B /\
+  (exists x, band_solve exn_B exs_b = Ok x) /\
+  (INR (3 * (bm1 exn_B + bm2 exn_B + 1)) * ux < 1)%R /\
+  decompose_gen false exn_B (Model.Banded.compact exn_B) (@mat_new AFlx 2 1 0%R) (repeat 0 2) = Ok (exn_au, exn_al, [1; 2], 1%R) /\
+  (forall k, k < 2 -> mat_at (A := AFlx) exn_au 3 k 0 <> 0%R) /\
+  (forall k, k < 2 -> nth k [1; 2] 0 = k + 1).
+Proof.
+  split; [exact ux_range|]. split; [exact xsub_ok|]. split; [exact xmul_ok|]. split; [exact xdiv_ok|].
+  split; [exact exn_wf|]. split; [reflexivity|]. split; [cbn; lia|]. split; [exact exn_solve|].
+  split; [exact exn_size9|]. split; [exact exn_decompose|]. split; [exact exn_pivots|].
+  intros [|[|k]] Hk; try lia; reflexivity.
 Qed.
 
